@@ -168,7 +168,32 @@ func namedLayouts() []named {
 			return b
 		}}
 	}())
+	// group 5: the embedded struct is of an UNEXPORTED type (declared in the user's own package, lower-case name); its tagged
+	// fields are exported and are part of the message like those of any other embedded struct, in both directions
+	out = append(out, func() named {
+		return named{"embedded/unexported-type", func() (any, any) {
+			return &msgWithHeader{header: header{Serial: 405419896, Door: 3}, Card: 8165538}, &msgWithHeader{}
+		}, func() []byte {
+			b := make([]byte, 64)
+			b[0], b[1] = 0x17, 0x5a
+			le32(b, 4, 405419896)
+			b[8] = 3
+			le32(b, 12, 8165538)
+			return b
+		}}
+	}())
 	return out
+}
+
+type header struct {
+	Serial types.SerialNumber `uhppote:"offset:4"`
+	Door   uint8              `uhppote:"offset:8"`
+}
+
+type msgWithHeader struct {
+	MsgType types.MsgType `uhppote:"value:0x5a"`
+	header
+	Card uint32 `uhppote:"offset:12"`
 }
 
 type namedCase struct {
@@ -215,7 +240,7 @@ func checkNamed(c namedCase) *rp.Fail {
 }
 
 func genNamed(t *rapid.T) namedCase {
-	return namedCase{Order: rapid.SliceOfN(rapid.IntRange(0, 7), 2, 14).Draw(t, "order")}
+	return namedCase{Order: rapid.SliceOfN(rapid.IntRange(0, 8), 2, 14).Draw(t, "order")}
 }
 
 // concurrent first use of a layout: a freshly built struct type (new to every per-type cache) is encoded and decoded by
